@@ -35,6 +35,7 @@ class Cap:
         self.fields = set(fields)     # field identities (bytes)
         self.desc = desc
         self.alts = list(alts)        # allocation sites with different sizes: a bound must hold for each of them
+        self.scale = 1                # the fields count elements of this many bytes (constant factor of the allocation)
 
     def __repr__(self):
         parts = []
@@ -394,6 +395,9 @@ class Bounder:
                 return True
             stores = [i for i in self.f.insts() if i.op == "store" and _same_loc(self.prog, self.f, i.ops[1], loc)]
             reaching = [s for s in stores if self._may_reach(s, u)]
+            if not reaching or not any(self.f.inst_dominates(s, u) for s in reaching):
+                if self._field_everywhere(u, Q, depth):
+                    return True
             if not reaching:
                 return False
             # a store that dominates the load kills earlier ones
@@ -414,12 +418,67 @@ class Bounder:
             if a_.is_const and a_.is_int and 0 <= a_.sval <= Q.const:
                 return self.bounded(b_, at, Cap(const=Q.const - a_.sval, desc=Q.desc), depth + 1, seen)
             return False
+        if op in ("mul", "shl") and Q.fields and getattr(Q, "scale", 1) > 1:
+            a_, b_ = u.ops
+            k = None
+            if op == "mul":
+                if b_.is_const and b_.is_int:
+                    k, x_ = b_.uval, a_
+                elif a_.is_const and a_.is_int:
+                    k, x_ = a_.uval, b_
+            elif b_.is_const and b_.is_int and b_.uval < 32:
+                k, x_ = 1 << b_.uval, a_
+            if k is not None and 0 < k <= Q.scale:
+                Q1 = Cap(const=None, fields=Q.fields, desc=Q.desc)
+                if self.is_cap(x_, Q1) or self.bounded(x_, at, Q1, depth + 1, seen):
+                    return True
         if op == "mul" and Q.const is not None:
             a_, b_ = u.ops
             if b_.is_const and b_.is_int and b_.uval > 0:
                 return self.bounded(a_, at, Cap(const=Q.const // b_.uval, desc=Q.desc), depth + 1, seen)
             return False
         return False
+
+    def _field_everywhere(self, load, Q, depth):
+        """the value is an integer field that this function did not (certainly) set itself: it is bounded if every store
+        to a field of that name in the whole program stores a bounded value (judged where the store happens; a capacity
+        given by field names carries over, SSA symbols do not).  Objects are told apart by type and field name only."""
+        fid = field_id(load)
+        if not fid or depth > 5 or not (Q.fields or Q.const is not None):
+            return False
+        memo = self.prog.__dict__.setdefault("_field_everywhere", {})
+        key = (fid, Q.const, tuple(sorted(Q.fields)))
+        if key in memo:
+            return memo[key]
+        memo[key] = True            # co-inductive: a store of the field's own (bounded) value is fine
+        Qt = Cap(const=Q.const, fields=Q.fields, desc=Q.desc)
+        ok = True
+        found = False
+        for g in self.prog.functions():
+            if g.decl:
+                continue
+            for i in g.insts():
+                if i.op != "store":
+                    continue
+                p = strip_casts(i.ops[1])
+                if not (p.is_inst and p.op == "getelementptr" and p.field()):
+                    continue
+                sn, n = p.field()
+                if "%s.%s" % (re.sub(r"\.\d+$", "", sn).replace("struct.", ""), n) != fid:
+                    continue
+                found = True
+                v = i.ops[0]
+                if v.is_const and v.is_int and ((Q.const is not None and v.uval <= Q.const) or v.uval == 0):
+                    continue
+                Bg = Bounder(self.prog, g)
+                if Bg.is_cap(v, Qt) or Bg.bounded(v, i, Qt, depth + 2):
+                    continue
+                ok = False
+                break
+            if not ok:
+                break
+        memo[key] = ok and found
+        return memo[key]
 
     def _field_via_callers(self, load, Q, depth):
         """the value is a field of an object received as a parameter; it is bounded if in every caller the same field of
@@ -653,9 +712,11 @@ def field_capacity(prog, sname, fname):
 
     def add_site(fn, sizes, where):
         consts, fields = [], set()
-        _collect_size(prog, fn, sizes, consts, fields)
+        mult = _collect_size(prog, fn, sizes, consts, fields)
         sites.append(Cap(const=min(consts) if consts and not fields else None, fields=fields,
                          desc="%s @%s" % (desc, where)))
+        if fields and mult and mult > 1 and len(fields) == 1:
+            sites[-1].scale = mult
 
     for f in prog.functions():
         for i in f.insts():
@@ -729,13 +790,15 @@ def field_capacity(prog, sname, fname):
     uniq = []
     for c in sites:
         for u in uniq:
-            if u.const == c.const and u.fields == c.fields:
+            if u.const == c.const and u.fields == c.fields and u.scale == c.scale:
                 break
         else:
             uniq.append(c)
     if len(uniq) == 1:
         u = uniq[0]
-        return Cap(const=u.const, fields=u.fields, desc=desc)
+        r = Cap(const=u.const, fields=u.fields, desc=desc)
+        r.scale = u.scale
+        return r
     allf = set()
     for u in uniq:
         allf |= u.fields
@@ -754,7 +817,7 @@ def _collect_size(prog, f, sizes, consts, fields):
             syms.append(s)
     if not syms:
         consts.append(c)
-        return
+        return c
     # a product computed beforehand (size * count, also through the overflow-checked multiplication): its factors
     flat = []
     work = list(syms)
@@ -776,6 +839,7 @@ def _collect_size(prog, f, sizes, consts, fields):
                     work.append(sts[0].ops[0])
                     continue
         if u.is_const and u.is_int:
+            c *= u.uval
             continue
         flat.append(s)
     syms = flat
@@ -797,6 +861,7 @@ def _collect_size(prog, f, sizes, consts, fields):
             fid = field_id(x)
             if fid:
                 fields.add(fid)
+    return c
 
 
 def flex_capacity(prog, sname):
